@@ -746,13 +746,20 @@ def run_sequence(arg):
         call = None
         read_caches(root)
         if script and script[step][0] == 'raw-slice':
-            _, path, field, start, stop, new = script[step]
+            _, path, field, start, stop, new, *more = script[step]
+            opts = more[0] if more else {}
             op = r['op'] = 'raw-slice'
             rect = slice_rect(tree0, lines, path, field, start, stop)
             cont = root.child_from_path(_astpath(path)) if path else root
             r.update(rect=rect, new=new, rk='scripted-history', nk='scripted', on=cont.a.__class__.__name__, node_path=path,
-                     slice=[field, start, stop])
-            call = lambda: cont.put_slice(new, start, stop, field, raw=True)
+                     slice=[field, start, stop], **({'opts': opts} if opts else {}))
+            raw = opts.get('raw', True)
+            if opts.get('code'):
+                how, code_src = opts['code']        # the code is given as an FST / AST whose ELEMENTS are put (one=False)
+                code = FST(code_src) if how == 'fst' else ast.parse(code_src.strip(), mode='eval').body
+            else:
+                code = new
+            call = lambda: cont.put_slice(code, start, stop, field, raw=raw)
         elif script and script[step][0] == 'raw-to':
             _, path, to_path, new = script[step]
             op = r['op'] = 'raw-put-to'
@@ -1262,6 +1269,10 @@ def phase_e(arg):
     # rectangle actually used (raw put): must be the CPython span of the node
     rect_ev = ev_of(r, 'rect') if reached else None
     if rect_ev is not None and (rect_ev['rect'] != list(rect) or '\n'.join(rect_ev['new_lines']) != r['new']):
+        if r['op'] == 'raw-slice' and rect_ev['rect'] == list(rect):
+            res['fail'].append((sig('put-text-differs'),
+                                f'put_slice{tuple(r["slice"])} put the text {chr(10).join(rect_ev["new_lines"])!r}; the elements of the given code are {r["new"]!r}'))
+            return res
         if r['op'] == 'raw-slice':
             res['fail'].append((sig('rectangle-differs'),
                                 f'put_slice{tuple(r["slice"])} replaced the rectangle {rect_ev["rect"]} with {chr(10).join(rect_ev["new_lines"])!r}; the statements '
@@ -1576,6 +1587,10 @@ def slice_rect(tree, lines, path, field, start, stop):
     el = slice_elems(cont, field)
     if not (0 <= start < stop <= len(el)):
         return None
+    if field in ('elts', 'args', 'values'):        # expression lists: plain CPython spans of the first and last element
+        a, b = el[start], el[stop - 1]
+        return [a.lineno - 1, char_col(lines[a.lineno - 1], a.col_offset), b.end_lineno - 1,
+                char_col(lines[b.end_lineno - 1], b.end_col_offset)]
     real = 'body' if field == '_body' else field
     off = len(getattr(cont, real)) - len(el)
     a = cpy_bloc(tree, lines, list(path) + [[real, start + off]])
@@ -1626,4 +1641,54 @@ def slice_edits():
                 ind = lines[rect[0]][:rect[1]]
                 for new in SLICE_TEXTS[kind]:
                     out.append((src, ('raw-slice', path, field, start, stop, new.replace('\n', '\n' + ind)), 'slice:' + field))
+    return out
+
+
+# raw-mode slice puts to expression lists: code given as text, as an FST or as an AST; raw=True and raw='auto'
+
+EXPR_SLICE_TARGETS = [
+    ('v = [a, b, c]', [['body', 0], ['value', None]], 'elts'),
+    ('v = (a, b, c)', [['body', 0], ['value', None]], 'elts'),
+    ('v = {a, b, c}', [['body', 0], ['value', None]], 'elts'),
+    ('f(a, b, c)', [['body', 0], ['value', None]], 'args'),
+    ('if q:\n    v = [a,\n         b, c]  # t\n', [['body', 0], ['body', 0], ['value', None]], 'elts'),
+]
+EXPR_SLICE_CODES = ['[x, y]', '[x, y]\n', '[x, y]\n# c\n', '(x,\n y)\n\n', '{x, y}  # c\n# d', '[x]\n\n\n', '[x, y.z]\n\n# e', '# lead\n[x, y]\n']
+# (not used: codes with a trailing comma or parenthesised last element - the put adjusts commas / takes the parentheses by design)
+FSTR_TARGETS = [
+    ('x = f"a{b}c{d!r}e"', [['body', 0], ['value', None]], 'values'),
+    ('print(f"{a}{b:>{w}} t", k)', [['body', 0], ['value', None], ['args', 0]], 'values'),
+    ('def g():\n    return f\'{u}-{v}\'\n', [['body', 0], ['body', 0], ['value', None]], 'values'),
+]
+FSTR_TEXTS = ['{z}', 'lit', '{p}{q}', 'l{m!s}']
+
+
+def expr_slice_edits():
+    out = []
+    for src, path, field in EXPR_SLICE_TARGETS:
+        n = len(slice_elems(follow(ast.parse(src), path), field))
+        for code_src in EXPR_SLICE_CODES:
+            ct = ast.parse(code_src.strip(), mode='eval').body
+            cl = code_src.strip().split('\n')
+            a, b = ct.elts[0], ct.elts[-1]
+            if a.lineno != b.end_lineno:
+                elems = '\n'.join([cl[a.lineno - 1][char_col(cl[a.lineno - 1], a.col_offset):]] + cl[a.lineno:b.end_lineno - 1]
+                                  + [cl[b.end_lineno - 1][:char_col(cl[b.end_lineno - 1], b.end_col_offset)]])
+            else:
+                elems = cl[a.lineno - 1][char_col(cl[a.lineno - 1], a.col_offset):char_col(cl[a.lineno - 1], b.end_col_offset)]
+            for start in range(n):
+                for stop in range(start + 1, n + 1):
+                    if '(a, b, c)' in src and field == 'elts' and stop - start == n and len(ct.elts) == 1:
+                        continue        # a tuple left with one element gets its comma from the put (by design)
+                    out.append((src, ('raw-slice', path, field, start, stop, elems, {'code': ['fst', code_src]}), 'slice:' + field + ':fst-code'))
+                    if '\n' not in elems and '(y)' not in elems:
+                        out.append((src, ('raw-slice', path, field, start, stop, ast.unparse(ct)[1:-1].rstrip(',') if not isinstance(ct, ast.Tuple) or True else elems,
+                                          {'code': ['ast', code_src]}), 'slice:' + field + ':ast-code'))
+    for src, path, field in FSTR_TARGETS:
+        n = len(slice_elems(follow(ast.parse(src), path), field))
+        for start in range(n):
+            for stop in range(start + 1, n + 1):
+                for new in FSTR_TEXTS:
+                    for raw in (True, 'auto'):
+                        out.append((src, ('raw-slice', path, field, start, stop, new, {'raw': raw}), f'slice:values:raw={raw}'))
     return out
